@@ -362,6 +362,28 @@ def censored_model_probe(rng, res, mismatches):
         draws_ok = bool(np.all((u >= 0) & (u < thr)))
         if not (np.array_equal(c, c_ref) and np.array_equal(m.ppf(q, *fit), p_ref) and draws_ok):
             mismatches.append({"op": "censored_model_probe", "thr": thr, "draws_in_[0,thr)": draws_ok})
+    # hurdle model: cdf = where(x == 0, u, p0 + (1 - p0) G(x)), u in [0, p0]; ppf = where(q > p0, Q((q - p0)/(1 - p0)), 0)
+    from ibicus.utils import gen_PrecipitationHurdleModel
+
+    for k in range(6):
+        nprs = np.random.RandomState(rng.randint(0, 2**31 - 2))
+        m = gen_PrecipitationHurdleModel()
+        p0 = float(nprs.choice([0.0, 0.2, 0.7]))
+        amounts = (float(nprs.uniform(0.5, 2)), 0, float(nprs.uniform(0.5, 3)))
+        x = np.concatenate([np.zeros(4), nprs.gamma(1.0, 2.0, 8)])
+        with _CaptureUniform() as cap:
+            c = m.cdf(x, p0, amounts)
+        u = cap.draws[0] if cap.draws else np.zeros_like(x)
+        c_ref = np.where(x == 0, u, p0 + (1 - p0) * scipy.stats.gamma.cdf(x, *amounts))
+        q = nprs.uniform(0.001, 0.999, 12)
+        with np.errstate(all="ignore"):
+            p_ref = np.where(q > p0, scipy.stats.gamma.ppf((q - p0) / (1 - p0), *amounts), 0)
+            p_real = m.ppf(q, p0, amounts)
+        res.cov["traces_validated_against_impl"] += 2
+        draws_ok = bool(np.all((u >= 0) & (u <= p0)))
+        fit = m.fit(np.concatenate([np.zeros(3), nprs.gamma(1.0, 2.0, 9)]))
+        if not (np.array_equal(c, c_ref) and np.array_equal(p_real, p_ref) and draws_ok and abs(fit[0] - 0.25) < 1e-12):
+            mismatches.append({"op": "hurdle_model_probe", "p0": p0, "draws_in_[0,p0]": draws_ok, "fit_p0": float(fit[0])})
 
 
 # ------------------------------------------------------------------ tier B for the non-ISIMIP debiasers
@@ -425,7 +447,8 @@ def run(tier, res, force_search=False):
         "scipy.stats.norm / gamma / beta / weibull_min are assumed (not proved) to satisfy the monotonicity / support laws stated as LocScaleLaws / "
         "IsiLaws; they are exercised by the oracle on the real code only",
         "np.histogram(bins='auto') bin edges / counts (kernel_density) are an oracle constrained by HistLaws; kernel_density is exercised via the real code only",
-        "the left-censored gamma model is a local Lean transcription (Lemmas.C09.censCdf / censPpf) tied by a structural probe and the oracle, not by a driver",
+        "the left-censored gamma and the hurdle precipitation models are local Lean transcriptions (Lemmas.C09.censCdf / censPpf / hurdleCdf / hurdlePpf) "
+        "tied by a structural probe (cdf / ppf formulas, draw interval, p0) and the oracle, not by a driver",
         "np.argsort is not stable: all statements are about strictly different inputs (x_i < x_j), never about the order of equal inputs",
     ]
     res.assumptions = [
@@ -433,7 +456,8 @@ def run(tier, res, force_search=False):
         "interpolation / the extrapolation addition, and 0 for rank-transfer outputs (LS, step 4, bound assignment, discrete iecdf methods)",
         "LS multiplicative / CDFt multiplicative shift: mean obs / mean cm_hist >= 0 (non-negative data); QM multiplicative detrending: mean F / mean H > 0",
         "samples of size >= 2; ISIMIP: event_likelihood_adjustment = False, bounds enclose thresholds, family support inside the bounds (IsiLaws)",
-        "hurdle model and the composition step4->step6 of the whole ISIMIP window are checked by the oracle only (no theorem)",
+        "the whole-window theorem (window_mono) assumes pairwise distinct step-4 draws (probability 1); tied draws are covered by the oracle only",
+        "QuantileMapping with a precipitation model: non-negative data; censored model: the F16 pairs (two distinct sub-threshold inputs) are excluded from the theorem",
     ]
 
     ok = C.lean_phase(res, PROP, GEN, TARGETS)
